@@ -21,9 +21,10 @@ def h12_consume_mem(S):
     has_ttl = S.flag("has_ttl")
     ttl = S.int("ttl", 0, HUNDRED_Y) if has_ttl else None
     now = S.int("now", Y2000, Y2100)
-    origin = S.pick("origin", 2)          # 0 waiting, 1 delayed and due
+    origin = S.pick("origin", 3)          # 0 waiting, 1 delayed and due, 2 arrives while the consumer is already polling
     due = S.int("due", Y2000, Y2100) if origin == 1 else None
-    S.tag("origin", ["waiting", "delayed"][origin])
+    S.tag("origin", ["waiting", "delayed", "arrives-while-polling"][origin])
+    arrives_after = [0.0005, 0.3, 1.2][S.pick("arrives_after", 3)] if origin == 2 else None
     params = P.Parameters(timestamp=S.datetime_us(ts), ttl=S.timedelta_us(ttl) if has_ttl else None,
                           delay=P.DelayProperties(next_execution_time=S.datetime_us(due) if origin == 1 else None))
     key = RoutingKey(topic="job", queue="default", id_="m1")
@@ -38,11 +39,19 @@ def h12_consume_mem(S):
         q = broker.queues["default"]
         if origin == 0:
             q.simple.put_nowait(Message(key, "p", params))
-        else:
+        elif origin == 1:
             q.delayed.setdefault(S.datetime_us(due), []).append(Message(key, "p", params))
         cons = broker.get_consumer("default", ["job"])
         await cons.start()
-        out["got"] = await try_consume(cons)
+        if origin == 2:
+            # e.g. handed back by another consumer, or enqueued late by a producer with an old timestamp
+            import asyncio
+            waiting = asyncio.ensure_future(try_consume(cons, timeout=2.5))
+            await asyncio.sleep(arrives_after)
+            await broker.enqueue(key, "p", params)
+            out["got"] = await waiting
+        else:
+            out["got"] = await try_consume(cons)
         out["places"] = mem_places(broker)
         dead = broker.get_consumer("default", None, None, MessageCategory.DEAD)
         await dead.start()
@@ -182,6 +191,55 @@ def h12_consume_broker(S, backend="redis"):
                 info=f"dead-category consumer got {out['dead_got']}; dropped: {out.get('dropped_after_dead_read')}")
 
 
+def h12_job(S):
+    """Job(ttl, deferred_until, deferred_by).enqueue(): the ttl counts from the job's creation, whatever its deferral."""
+    from repid import Job
+    from repid.message import MessageCategory
+    from harness.common import World
+
+    e = S.int("created_at_us", Y2000, Y2050)
+    ttl = S.int("ttl", SEC, HUNDRED_Y)
+    has_until = S.flag("has_deferred_until")
+    T = S.int("deferred_until_us", Y2000, Y2100) if has_until else None
+    has_by = S.flag("has_deferred_by") if has_until else False
+    p = S.int("deferred_by_us", SEC, 40 * 86400 * SEC) if has_by else None
+    now = S.int("consume_at_us", Y2000, Y2100)
+    if has_until:
+        S.assume(T > e)
+    S.assume(now >= e)
+    clock = PinnedClock(e)
+    out = {}
+
+    async def main(loop):
+        w = World()
+        await w.open(record=False)
+        await Job("job", id_="m1", ttl=S.timedelta_us(ttl), deferred_until=S.datetime_us(T) if has_until else None,
+                  deferred_by=S.timedelta_us(p) if has_by else None, _connection=w.conn).enqueue()
+        clock.set(now)
+        cons = w.broker.get_consumer("default", ["job"])
+        await cons.start()
+        out["got"] = await try_consume(cons)
+        out["places"] = mem_places(w.broker)
+        dead = w.broker.get_consumer("default", None, None, MessageCategory.DEAD)
+        await dead.start()
+        out["dead_got"] = await try_consume(dead)
+
+    run_async(main, clock=clock)
+    names = place_names(out["places"], "m1")
+    expired = now > e + ttl
+    if out["got"] is not None:
+        S.cover("handed-over")
+        S.check("never-handed-over-after-expiry", neg(expired), info="ttl counted from something later than the job's creation")
+    elif names == ["delayed"]:
+        S.cover("not-due")
+        S.check("still-delayed-only-when-not-due", has_until and now <= T)
+    else:
+        S.cover("withheld")
+        S.check("withheld-only-when-expired", expired)
+        S.check("expired-goes-to-dead-letter", names == ["dead"], info=str(names))
+        S.check("expired-stays-retrievable", out["dead_got"] is not None and out["dead_got"][0].id_ == "m1")
+
+
 def _cb(backend):
     def scen(S):
         return h12_consume_broker(S, backend)
@@ -193,7 +251,7 @@ HARNESSES = [
     Harness(
         name="H12-consume-mem", scenario=h12_consume_mem,
         bounds={"timestamp": "2000..2050", "ttl": "None or [0, 100 y] (Parameters built directly; Job itself refuses ttl < 1 s)", "delivery instant": "2000..2100 (incl. exactly at expiry)",
-                "origin": "waiting or delayed (due time symbolic)"},
+                "origin": "waiting, delayed (due time symbolic), or arriving 0.5 ms / 0.3 s / 1.2 s after the consumer started polling an empty queue"},
         functions=["connections/in_memory/consumer.py:_InMemoryConsumer.consume", "data/_parameters.py:Parameters.is_overdue"],
         covers=["handed-over", "withheld", "not-due"],
     ),
@@ -205,6 +263,11 @@ HARNESSES = [
     ),
 ]
 HARNESSES += [
+    Harness(name="H12-job", scenario=h12_job, workers=4,
+            bounds={"creation instant": "2000..2050", "ttl": "[1 s, 100 y] (Job refuses less)", "deferred_until": "absent or any µs after creation up to 2100",
+                    "deferred_by": "absent or [1 s, 40 d]", "delivery instant": "any µs from creation to 2100"},
+            functions=["job.py:Job.__init__", "job.py:Job.enqueue", "data/_parameters.py:Parameters.is_overdue"],
+            covers=["handed-over", "withheld", "not-due"]),
     Harness(name="H12-consume-redis", scenario=_cb("redis"),
             bounds={"timestamp": "2000..2050", "ttl": "None or [0, 100 y] (Parameters built directly; Job itself refuses ttl < 1 s)", "delivery instant": "any µs >= timestamp up to 2100", "priority": "LOW / MEDIUM / HIGH",
                     "origin": "normal list, or the delayed set with any due time >= timestamp (whole-second scores)"},
